@@ -10,7 +10,7 @@ oracle:          the property itself, in python, on the same result files
 """
 import datetime, os, random, re
 from core import Corr, Fail, chunked_list
-from props import wxlib
+from props import wxlib, outfmtlib, c05fmtlib
 from props.wxlib import daynum, date_of, doy, ylen, de, ONE
 
 PROP_FILES = ["Prop_C05"]
@@ -18,10 +18,17 @@ RULE = ("one case = one whole run (start date, end date, annual date, interval, 
         "configurations); non-trivial = a record of a result file whose date/position/field count was compared")
 TRUSTED = ["python datetime as the civil-calendar reference of the oracle",
            "the result files are parsed by python (header line skipped, CRLF records)",
-           "python table of the Go types of the referenced variables (types.go)"]
+           "python table of the Go types of the referenced variables (types.go) for the generated configurations; for the source's own "
+           "configurations the Go types come from reflection (harness c05fmt)",
+           "fmt.Sprintf renders %d %s %f with flags + - 0 and width/precision like python's % operator (both correctly rounded); "
+           "fmt prints the operand for the verb/type pairs of OutFmtModel.verb_ok and '%!verb(...)' otherwise",
+           "the exact-value twin column (same variable, format %x / %d / %s, no modifier) shows the value WriteLine saw"]
 ASSUMPTIONS = ["weather complete for the simulated span (JTAG = days of the year); the incomplete case belongs to C04",
                "automatic sowing/harvest off (crop records of skipped crops are outside the property)",
-               "fmt.Sprintf is not modelled: 'one field per supported column', not the text of a field",
+               "fmt.Sprintf is modelled only as far as: one directive per format string, verb accepted for the column's type; the text of a "
+               "field is tied on real runs (parse back + expected rendering), not proved",
+               "a fixed-width field wider than its column shifts the rest of the line (counted in evidence, not an alarm: white-space "
+               "separated field count stays the column count)",
                "rotation harvest dates strictly increasing (the rotation reader panics otherwise)"]
 
 D = datetime.date
@@ -89,6 +96,8 @@ def gen_cases(ctx):
             ann = D(end.year, 10, 31)
         elif r < 0.5 and ylen(end.year) == 366:
             ann = D(end.year, 2, 29)
+        if idx % 10 == 7:  # end date = annual date: ENDE is extended by one day (OUTY >= ENDE)
+            ann = D(end.year, end.month, end.day)
         if idx == 0:       # the shipped ex3 pattern (F16): annual date 31 Oct, non-leap end year, leap years inside
             sy, start, end, ann = 1980, D(1980, 9, 30), D(1985, 12, 31), D(1985, 10, 31)
         eff = ann + ONE if ann >= end else end
@@ -211,7 +220,7 @@ def _nfields(recs):
 def correspond(ctx):
     c = Corr()
     rc, cases, runs, obs, err = _run(ctx)
-    ok, out = ctx.coq_make(["C04Corr"])
+    ok, out = ctx.coq_make(["C04Corr", "OutFmtProofs"])
     if not ok:
         c.mismatches.append({"kind": "coq-build", "what": "C04Corr does not build", "output": out[-1500:]})
         return c
@@ -275,7 +284,48 @@ def correspond(ctx):
             c.mismatches.append({"kind": "coq-eval", "shard": name, "output": o[-800:]})
     c.cases = len(ev_cases)
     c.samples = [_describe(cs) for cs in cases[:6]]
+    # ---- formatting tie: the source's own configurations with exact-value twin columns, both styles
+    fm, ff, fst = c05fmtlib.check(ctx)
+    for m in fm[:20]:
+        c.mismatches.append(m)
+    for m in c05fmtlib.header_model_tie(ctx):
+        c.mismatches.append(m)
+    c.cases += len(c05fmtlib.run(ctx)[1])
+    c.nontrivial += fst["fields"]
+    for k, v in fst.items():
+        c.dist["fmt_" + k] = v
     return c
+
+
+def generate(ctx):
+    """tie 3: the output configurations of the current source (built-in defaults of output_fmt.go, shipped yml files read by the
+    real LoadHermesOutputConfig) -> gen/OutFmtConfigs.v + obligations gen/OutFmtCheck.v"""
+    cfgs = outfmtlib.translate(ctx)
+    _cache["gen_names"] = outfmtlib.write_gen(ctx, cfgs)
+    _cache["gen_errors"] = [k for k in cfgs if "error" in cfgs[k]]
+
+
+def gen_proofs(ctx):
+    names = outfmtlib.GEN_THEOREMS
+    broken = []
+    ok, out = ctx.coq_make(["OutFmtProofs"])
+    if not ok:
+        return len(names), 0, [{"stage": "generated-proof", "what": "OutFmtProofs does not build: " + out[-1200:]}], names
+    for k in _cache.get("gen_errors", []):
+        broken.append({"stage": "generate", "what": "shipped output configuration %s is not readable by LoadHermesOutputConfig" % k})
+    if not os.path.exists(os.path.join(ctx.gen, "OutFmtConfigs.v")):
+        return len(names), 0, broken + [{"stage": "generate", "what": "OutFmtConfigs.v was not generated"}], names
+    rc, out = ctx.coqc(os.path.join(ctx.gen, "OutFmtConfigs.v"), timeout=600)
+    if rc:
+        return len(names), 0, broken + [{"stage": "generated-proof", "what": "OutFmtConfigs.v does not compile: " + out[-1500:]}], names
+    rc, out = ctx.coqc(os.path.join(ctx.gen, "OutFmtCheck.v"), timeout=900)
+    closed = out.count("Closed under the global context")
+    if rc or closed != len(names):
+        broken.append({"stage": "generated-proof", "what": "OutFmtCheck.v (column kinds, format verbs, header cells of the configurations of the "
+                                                           "current source) no longer checks: " + out[-1500:]})
+        return len(names), 0, broken, names
+    ctx.extra["output_configurations_checked"] = len(_cache.get("gen_names", []))
+    return len(names), len(names), broken, names
 
 
 # ---------------------------------------------------------------------------------------------
@@ -366,6 +416,11 @@ def oracle(ctx, search):
                                            % (tag, len(f), len(ln), len(cols), width, ln[:200]), case=desc))
                     break
     ctx.extra["oracle_records_checked"] = nrec
+    fm, ff, fst = c05fmtlib.check(ctx)
+    for key, what in ff:
+        fails.append(Fail(key=key, what=what))
+    ctx.extra["oracle_formatted_fields_checked"] = fst["fields"]
+    ctx.extra["fixed_width_lines_not_positional"] = fst["overflows"]
     return fails
 
 
@@ -373,5 +428,7 @@ LEVEL_TEXT = ("Machine-checked proof (Coq) about the model of the output trigger
               "date 1901-2099, interval and rotation; the model is run against the record dates, counts and field counts of "
               "the result files of whole runs of the real simulator each check; the property itself is evaluated on the same files.")
 LEVEL_NOTE = ("F16 (yearly record on day-of-year OUTDAY of the END year) is a known finding: annual_on_date is refuted at "
-              "model level next to annual_records. fmt.Sprintf not modelled. No axioms.")
+              "model level next to annual_records. Header/record field counts and header cell positions are proved for every "
+              "configuration of the current source (regenerated obligations); the text of a field is tied on real runs (parse back at "
+              "the format's precision, byte-exact lines), not proved. No axioms.")
 TECHNIQUE = "Coq proof (induction over the day loop + lia over the C12 calendar results) + whole-run model/code correspondence + direct oracle"
